@@ -37,6 +37,34 @@ def burst_cases(rnd, n):
     return cases
 
 
+def close_cases(rnd, n):
+    """fire and forget: one connection writes a burst of 90-130 unicast messages (tens of kB; calls with NO_REPLY_EXPECTED, a few
+    reply-expecting calls, signals; to unique and well-known names, owned or not) in ONE sendall() and closes its socket at
+    once.  Everything that was written completely must be processed as if the sender were still there: exactly once, in
+    order, intact; then the sender's state is cleaned up (later events check that)."""
+    cases = []
+    for i in range(n):
+        ev = ["C0", "C0", "C0", "C0", "R.1.20.0.0", "R.2.21.1.%d" % rnd.choice((0, 4))]
+        if rnd.random() < 0.5:
+            ev.append("M.3.22.1.%s.x.x" % rnd.choice("xsc"))
+        if rnd.random() < 0.3:
+            ev.append("R.2.23.0.0")              # queued behind 1
+        tok = 0
+        for k in range(rnd.randint(90, 130)):
+            tok += 1
+            ty = rnd.choice("cccss")
+            nr = 1 if ty == "s" or rnd.random() < 0.9 else 0
+            dst = rnd.choice(("u1", "u1", "u2", "n0", "n0", "n1", "n2", "u0", "u7"))
+            ev.append("S.0.%s.%d.%d.%d.0.%s.0.%d" % (ty, nr, rnd.random() < 0.5, 100 + tok, dst, tok))
+        ev.append("D.0")
+        for k in range(rnd.randint(1, 4)):
+            tok += 1
+            a, b = rnd.sample((1, 2, 3), 2)
+            ev.append("S.%d.%s.1.0.%d.0.%s.0.%d" % (a, rnd.choice("cs"), 500 + tok, rnd.choice(("u%d" % b, "n0", "u0")), tok))
+        cases.append(("close-burst%d" % i, (0, 50, -1), ev))
+    return cases
+
+
 def gen_cases(tier, rnd):
     cases = [c for c in rg.scenarios() if c[1][0] == 0]
     cases += rc.load_corpus("C05")
@@ -48,6 +76,7 @@ def gen_cases(tier, rnd):
         cfg = (0, 50, rg.TIMEOUT)
         cases.append(("timed%d" % i, cfg, rg.gen_history(rnd, cfg, "c05", rnd.randint(5, 10))))
     cases += burst_cases(rnd, n_burst)
+    cases += close_cases(rnd, 12 if tier == "quick" else 300)
     return cases
 
 
@@ -74,7 +103,7 @@ def run(ctx):
                 "after each event every live client is drained behind a driver round trip, so absence at third parties is observed.  "
                 "non-trivial = at least one delivery or bus error; distinct = distinct (configuration, event list)",
         "samples": samples[:10], "input_distribution": r["dist"], "traces_validated_against_impl": len(cases) - r["tainted"],
-        "steps_compared": r["steps"], "sends_written_back_to_back": r["pipelined"], "disagreements_checked": r["disagreements"], "timing_unusable": r["tainted"],
+        "steps_compared": r["steps"], "sends_written_back_to_back": r["pipelined"], "bytes_written_in_one_piece_before_close": r["burst_bytes"], "disagreements_checked": r["disagreements"], "timing_unusable": r["tainted"],
         "illformed_histories": r["illformed"], "exhaustive": False,
         "explanation": "theorems: every send yields exactly one output, the message to the primary owner in the pre-state or one error to the sender; "
                        "nobody else gets it; FIFO per (sender, recipient); at most one error per serial on histories without fds; "
